@@ -37,6 +37,16 @@ func c02Spaces(c *explore.Ctx) []wordSpace {
 		add("LCS", "BIGC", 0, 2)
 		add("LCM", "BIGC", 0, 2)
 	}
+	// every record its own segment, ids freed by compaction and reused: sequence ids out of id order across a restart
+	s2r1 := wordSpace{Base: "S2", Cfg: "ROLL1", Depth: 3}
+	for _, r := range []string{"a", "b", "e"} {
+		s2r1.Letters = append(s2r1.Letters, explore.Op{Kind: explore.Put, Key: r})
+	}
+	s2r1.Letters = append(s2r1.Letters, explore.Op{Kind: explore.Delete, Key: "a"}, explore.Op{Kind: explore.Compact})
+	if c.Thorough() {
+		s2r1.Depth = 5
+	}
+	sp = append(sp, s2r1)
 	// free-list persistence: a base with a non-empty free list and two exactly full chains; reduced alphabet, deeper
 	fl := wordSpace{Base: "FL", Cfg: "BIGC", Depth: 4}
 	for _, r := range []string{"m2", "n0", "n1", "n2"} {
